@@ -1,6 +1,6 @@
 (* C01 — case type and the two boolean functions evaluated on generated cases. *)
 From Coq Require Import List Bool ZArith.
-From V Require Import C05.Model C01.Model.
+From V Require Import C05.Model C01.Model C01.ModMap.
 Import ListNotations.
 Open Scope Z_scope.
 
@@ -11,7 +11,11 @@ Inductive case :=
 | CDo (Ms : list mapping) (m : molecule)
       (found : list pmatch)                                                      (* placements in the order the implementation found them *)
       (beads : list ibead) (iedges : list (Z * Z)) (iinters : list (Z * (list Z * Z)))
-      (w_overlap w_unmapped : bool).
+      (w_overlap w_unmapped : bool)
+| CDoMods (Ms : list mapping) (MMs : list modmap) (L : labelled)
+      (found : list pmatch) (mfound : list (Z * list (Z * list (Z * Z))))          (* modification placements found: (index of the mapping, atom -> [(particle, weight)]) *)
+      (no_cover : nat)                                                              (* warnings "Can't find modification mappings" *)
+      (result : option (list ibead * list (Z * Z) * list (Z * (list Z * Z)) * bool * bool)).   (* None: ValueError *)
 
 Definition pairs_same (a b : list (Z * Z)) : bool :=
   Nat.eqb (List.length a) (List.length b)
@@ -41,8 +45,29 @@ Definition bead_corr (d : bead) (i : ibead) : bool :=
   && list_eqb (fun x y => Z.eqb (fst x) (fst y) && Z.eqb (snd x) (snd y)) (d_weights d) (i_w i)
   && oz_eqb (d_chain d) (i_chain i) && oz_eqb (d_old_resid d) (i_old i).
 
+Definition nth_mod (MMs : list modmap) (i : Z) : option modmap := nth_error MMs (Z.to_nat i).
+
+Definition with_maps (MMs : list modmap) (mfound : list (Z * list (Z * list (Z * Z)))) : list (modmap * list (Z * list (Z * Z))) :=
+  flat_map (fun im => match nth_mod MMs (fst im) with Some M => [(M, snd im)] | None => [] end) mfound.
+
+(* the modification placements the model expects: for every needed mapping, every placement *)
+Definition expected_mod_matches (MMs : list modmap) (L : labelled) : list (list (Z * list (Z * Z))) :=
+  flat_map (fun names => flat_map (fun M => if list_eqbZ (mm_names M) names then map (mtranslate M) (mm_placements M L) else []) MMs)
+           (fst (needed L MMs)).
+
 Definition corr (k : case) : bool :=
   match k with
+  | CDoMods Ms MMs L found mfound no_cover result =>
+      sets_same (expected_mod_matches MMs L) (map snd mfound)
+      && Nat.eqb (snd (needed L MMs)) no_cover
+      && match do_mapping_mods (l_mol L) found (with_maps MMs mfound), result with
+         | Some o, Some (beads, iedges, iinters, wo, wu) =>
+             list_eqb bead_corr (out_beads o) beads && edges_same (out_edges o) iedges
+             && forallb (fun t => list_eqb inter_eqb (filter (fun i => Z.eqb (fst i) t) (out_inters o)) (filter (fun i => Z.eqb (fst i) t) iinters)) [1; 2]
+             && Bool.eqb (warn_overlap o) wo && Bool.eqb (warn_unmapped o) wu
+         | None, None => true
+         | _, _ => false
+         end
   | CMap M m impl => sets_same (map (fun p => p_m2b (translate M p)) (mmatches M m)) impl
   | CDo Ms m found beads iedges iinters wo wu =>
       let o := do_mapping m found in
@@ -78,6 +103,59 @@ Definition find_bead (beads : list ibead) (k : Z) : option ibead := find (fun i 
 
 Definition prop (k : case) : bool :=
   match k with
+  | CDoMods Ms MMs L found mfound _ result =>
+      match result with
+      | None =>
+          (* an error is justified only if some modification placement refers to an existing particle whose name none of
+             the particles of its atoms carries (judged from the block placements, without the merge loop) *)
+          let blocks := all_placements Ms (l_mol L) in
+          existsb (fun im =>
+            match nth_mod MMs (fst im) with
+            | None => true
+            | Some M =>
+                existsb (fun n =>
+                  negb (mt_new n)
+                  && negb (existsb (fun pm =>
+                       existsb (fun ml =>
+                         existsb (fun ml' => Z.eqb (fst ml') (fst ml) && existsb (fun bw => Z.eqb (fst bw) (mt_key n)) (snd ml')) (snd im)
+                         && existsb (fun bw => match find (fun b => Z.eqb (b_key b) (fst bw)) (b_nodes (p_block pm)) with
+                                               | Some b => oz_eqb (b_name b) (Some (mt_name n)) | None => false end) (snd ml))
+                         (p_m2b pm)) blocks)) (mm_to M)
+            end) mfound
+      | Some (beads, iedges, iinters, wo, wu) =>
+          let covered := flat_map keys_of (all_placements Ms (l_mol L)) ++ flat_map (fun im => map fst (snd im)) mfound in
+          (* no silent loss, modification placements included *)
+          Bool.eqb wu (existsb (fun a => negb (a_isH a) && negb (zmem (a_key a) covered)) (atoms (l_mol L)))
+          (* residues are still numbered consecutively in placement order: a particle whose first atom belongs to a block
+             placement carries that placement's rank (one-residue blocks, distinct lowest keys, no atom used twice) *)
+          && (let all := all_placements Ms (l_mol L) in
+              let order := process_order all in
+              if distinctZ (map min_key all)
+                 && forallb (fun pm => forallb (fun n => Z.eqb (b_resid n) 1) (b_nodes (p_block pm))) all
+                 && negb (existsb (fun pq => existsb (fun u => zmem u (keys_of (snd pq))) (keys_of (fst pq))) (pairs all))
+              then forallb (fun i => match i_w i with
+                                     | (u, _) :: _ =>
+                                         match find (fun pm => zmem u (keys_of pm)) order with
+                                         | Some pm => Z.eqb (i_resid i) (1 + index_of (min_key pm) (map min_key order) 0)
+                                         | None => true end
+                                     | [] => true end) beads
+              else true)
+          (* every atom of a modification placement is recorded, with its weight, by a particle carrying the name the
+             modification gives (new particle: that name; existing particle: the name after the requested renaming) *)
+          && forallb (fun im =>
+               match nth_mod MMs (fst im) with
+               | None => false
+               | Some M =>
+                   forallb (fun ml => forallb (fun bw =>
+                       match find (fun n => Z.eqb (mt_key n) (fst bw)) (mm_to M) with
+                       | None => false
+                       | Some n =>
+                           let want := match mt_rename n with Some nm => nm | None => mt_name n end in
+                           existsb (fun i => Z.eqb (i_name i) want
+                                             && existsb (fun uw => Z.eqb (fst uw) (fst ml) && Z.eqb (snd uw) (snd bw)) (i_w i)) beads
+                       end) (snd ml)) (snd im)
+               end) mfound
+      end
   | CMap M m impl =>
       (* every reported placement fits, every fitting placement is reported, once *)
       sets_same (map (fun p => p_m2b (translate M p)) (mmatches M m)) impl
